@@ -5,7 +5,10 @@ from gen import domgen as D
 from props import xmlcommon as X
 
 # node-set and count queries only: in the raw view a string value depends on whether `>` was written as `&gt;` (after `]]`)
-QUERIES = "//*;//@*;//comment();//processing-instruction();count(//comment() | //processing-instruction());count(//*);(//*|//@*)[2];//*[last()];//*/@*[1]"
+# (the last two FAIL after they have collected and sorted nodes - an unbound prefix, a variable: the context that lives as long as
+# the history must carry nothing of them into the queries after the next edit; round-6 seed C07-H kept order keys by node id)
+QUERIES = ("//*;//@*;//comment();//processing-instruction();count(//comment() | //processing-instruction());count(//*);(//*|//@*)[2];"
+           "//*[last()];//*/@*[1];//node() | //zz:x;(//*)[last()][$v]")
 
 
 def histories(rng, n, max_ops, hostile, deep=0):
@@ -297,6 +300,20 @@ def run_c14(chk):
               "<r><a xmlns:p='urn:u1'><p:b><p:c p:at='v'/></p:b></a><a xmlns:p='urn:u2'><k/></a></r>",
               "<r xmlns='urn:u0'><mid><leaf><x/></leaf></mid><o xmlns='urn:u1'><i/></o></r>"]
     nscases = ns_histories(rng, 400 if thorough else 120, NSDOCS)
+    # a declaration built as a NODE first (createAttribute, its value set, a query in between, then setAttributeNode / the
+    # string form): the other way a declaration comes to stand on an element (round-6 seed C14-H renumbered for ordinary
+    # attribute nodes only)
+    import re as _re
+    inits = lib.run_lines(lib.build_harness(), [lib.req("dom", t, "count(//*)") for t in NSDOCS], timeout=120, per_line_resume=True)
+    for t, a in zip(NSDOCS, inits):
+        recs = D.split_records(a)
+        nh = 1 + max([int(x) for x in _re.findall(r"h(\d+):", recs[0].get("dump", ""))] or [0])
+        elems = [int(x) for x in _re.findall(r"h(\d+):E\(", recs[0].get("dump", ""))]
+        for el in elems:
+            for nm, uri in (("xmlns:p", "urn:u2"), ("xmlns:q", "urn:u1"), ("xmlns", "urn:u1")):
+                nscases.append((t, ["ca:" + lib.enc(nm), "sv:h%d:%s" % (nh, lib.enc(uri)), "san:h%d:h%d" % (el, nh)]))
+            nscases.append((t, ["ca:" + lib.enc("xmlns:p"), "sv:h%d:%s" % (nh, lib.enc("urn:u2")), "san:h%d:h%d" % (el, nh),
+                                "ce:p%3Anew", "ap:h%d:h%d" % (el, nh + 1)]))
     nsimpl = lib.run_lines(lib.build_harness(), [lib.req("dom", t, NSQ, *ops) for t, ops in nscases], timeout=900, per_line_resume=True)
     ns_ok = 0
     for (t, ops), a in zip(nscases, nsimpl):
